@@ -182,17 +182,55 @@ func canonicalHeaders() (names []string, hs [][]byte) {
 	return
 }
 
+func allZero(b []byte) bool {
+	for _, c := range b {
+		if c != 0 {
+			return false
+		}
+	}
+	return true
+}
+
+// chunkedReader delivers at most k bytes per Read (k = 1: one byte at a time).
+type chunkedReader struct {
+	b []byte
+	k int
+}
+
+func (c *chunkedReader) Read(p []byte) (int, error) {
+	if len(c.b) == 0 {
+		return 0, io.EOF
+	}
+	n := c.k
+	if n > len(p) {
+		n = len(p)
+	}
+	if n > len(c.b) {
+		n = len(c.b)
+	}
+	copy(p, c.b[:n])
+	c.b = c.b[n:]
+	return n, nil
+}
+
 type raOnly struct{ r *bytes.Reader }
 
 func (r raOnly) ReadAt(p []byte, off int64) (int, error) { return r.r.ReadAt(p, off) }
 
 // fourWay runs all four entry points on stream and compares them with
 // Buf(stream[:24]); it also checks that ScanBuf did not consume.
-func fourWay(stream []byte) (imagetype.ImageType, error, string) {
+func fourWay(orig []byte) (imagetype.ImageType, error, string) {
 	var t0 imagetype.ImageType
 	var e0 error
+	// the classifiers get a private copy with spare capacity: sniffing must not alter the bytes it is shown
+	// (callers hand in windows of their own buffers, e.g. a bufio.Reader's Peek)
+	stream := append(make([]byte, 0, len(orig)+64), orig...)
+	defer func() {}()
 	if len(stream) >= 24 {
 		t0, e0 = imagetype.Buf(stream[:24])
+		if !bytes.Equal(stream[:len(orig)+64][:len(orig)], orig) || !allZero(stream[len(orig):len(orig)+64]) {
+			return t0, e0, "Buf-modified-its-argument"
+		}
 		t1, e1 := imagetype.Buf(stream)
 		if t1 != t0 || (e1 == nil) != (e0 == nil) || (e0 != nil && e1 != e0) {
 			return t0, e0, "Buf(b)!=Buf(b[:24])"
@@ -236,6 +274,20 @@ func fourWay(stream []byte) (imagetype.ImageType, error, string) {
 	rest, _ = io.ReadAll(br2)
 	if t5 != t0 || cls(e5) != cls(e0) || !bytes.Equal(rest, stream) {
 		return t0, e0, "Scan(bufio.Reader)-differs-or-consumed"
+	}
+	// readers that deliver the stream in pieces: same answer (the first Read need not fill the window)
+	for _, k := range []int{1, 7, 23} {
+		t6, e6 := imagetype.Scan(&chunkedReader{append([]byte{}, orig...), k})
+		if t6 != t0 || cls(e6) != cls(e0) {
+			return t0, e0, fmt.Sprintf("Scan(%d-byte reads)=%s/%s Buf=%s/%s", k, t6, cls(e6), t0, cls(e0))
+		}
+		t7, e7 := imagetype.ScanBuf(bufio.NewReaderSize(&chunkedReader{append([]byte{}, orig...), k}, 32))
+		if t7 != t0 || cls(e7) != cls(e0) {
+			return t0, e0, fmt.Sprintf("ScanBuf(%d-byte reads)=%s/%s Buf=%s/%s", k, t7, cls(e7), t0, cls(e0))
+		}
+	}
+	if !bytes.Equal(stream[:len(orig)], orig) || !allZero(stream[len(orig) : len(orig)+64][:64]) {
+		return t0, e0, "a classifier modified its argument"
 	}
 	if len(stream) < 24 && (t0 != imagetype.ImageUnknown || e0 == nil || e2 == nil || e3 == nil || e4 == nil) {
 		return t0, e0, "short-stream-accepted"
@@ -391,7 +443,7 @@ func init() {
 			report(x, fs, st[:min(len(st), 24)], "entry-points-disagree: "+k)
 		}
 		if L == 24 {
-			t0, _ := imagetype.Buf(hs[hi])
+			t0, _ := imagetype.Buf(append([]byte{}, hs[hi]...))
 			if t != t0 {
 				report(x, fs, st[:24], "suffix-dependence")
 			}
